@@ -490,6 +490,10 @@ class HyReader(Reader):
                     if in_named_escape:
                         in_named_escape = False
                     elif not self.peek_and_getc("}"):
+                        if not self.peekc():
+                            raise PrematureEndOfInput.from_reader(
+                                f"Premature end of input in {fstring_mode}-string", self
+                            )
                         raise SyntaxError(f"{fstring_mode}-string: single '}}' is not allowed")
         res = "".join(s).replace("\x0d\x0a", "\x0a").replace("\x0d", "\x0a")
 
@@ -555,7 +559,7 @@ class HyReader(Reader):
 
         # handle conversion code
         if self.peek_and_getc("!"):
-            conversion = self.getc()
+            conversion = self.getn(1)
         self.slurp_space()
 
         def component_closing(c):
@@ -570,7 +574,7 @@ class HyReader(Reader):
         else:
             if has_debug and conversion is None:
                 conversion = "r"
-            if not self.getc() == "}":
+            if not self.getn(1) == "}":
                 raise LexException.from_reader(f"{fstring_mode}-string: trailing junk in field", self)
         return values + [
             self.fill_pos(FComponent((model, *format_components), conversion=conversion, expression=form_text, is_tstring=fstring_mode == "t"), start)
